@@ -85,6 +85,7 @@ type run struct {
 
 	emits     []string
 	pendingGo []pendingGo
+	curG, nextG int // goroutine executing now (0: the entry's), last id handed out
 	twins     map[*Term]*Term
 	stack     []*ssa.Function
 	names     map[*value]string
